@@ -36,6 +36,9 @@ func drawInvocation(t *tape.Tape, w *world.World) invocation {
 	if w.HasExt {
 		all = append(all, "ext", "other/ext")
 	}
+	if w.Twin > 0 {
+		all = append(all, "twin/p")
+	}
 	switch t.Intn(6) {
 	case 0:
 		return invocation{Cwd: ".", Args: []string{"./p"}, Pkgs: []string{"p"}}
@@ -66,6 +69,7 @@ func drawInvocation(t *tape.Tape, w *world.World) invocation {
 }
 
 func c08Case(ctx *genCtx, ts *tape.Set, dir string) *genResult {
+	res0probe := false
 	prof := drawProfile(ts.Fork("profile"), ctx.tier)
 	pt := ts.Fork("profile")
 	if pt.Intn(3) > 0 {
@@ -74,7 +78,11 @@ func c08Case(ctx *genCtx, ts *tape.Set, dir string) *genResult {
 	if pt.Intn(4) == 0 {
 		prof.Q, prof.Ext, prof.Force = true, true, true // bias: several packages sharing types of a third one
 	}
+	prof.Twin = ts.Fork("twin").Chance(1, 4)
 	w := world.Generate(ts.Fork("world"), prof)
+	if w.Twin > 0 {
+		res0probe = true
+	}
 	if pt.Chance(1, 4) {
 		w.DrawPrefixes(ts.Fork("prefix"))
 	}
@@ -98,6 +106,9 @@ func c08Case(ctx *genCtx, ts *tape.Set, dir string) *genResult {
 	}
 	flags := w.PrefixFlags()
 	res := &genResult{Sample: map[string]any{"files": userSources(files), "flags": flags}}
+	if res0probe {
+		res.probe("world.same_named_generated_packages")
+	}
 
 	// initial disk state: nothing, or the output of an identity run
 	prefilled := vt.Bool()
